@@ -11,6 +11,17 @@ def register(CHECKS, H):
         q.append({"unit": "c15_opt%d" % i, "args": ["--part", "serial", "--labels", "0,1,2", "--F", "0,1"]})
         t.append({"unit": "c15_opt%d" % i, "args": ["--part", "copy", "--labels", "0,1,2", "--F", "0,1,2"], "shards": 4, "timeout": 3000})
         t.append({"unit": "c15_opt%d" % i, "args": ["--part", "serial", "--labels", "0,1,2,3", "--F", "0,1"], "shards": 2, "timeout": 3000})
+    # E3: preemption-bounded scheduler over allocation points (own TU, replaces operator new/delete)
+    units.append({"name": "c15_threads", "src": "checks/c15_threads.cpp", "libs": ["-lpthread"], "deps": ["engine/sched.hpp"]})
+    units.append({"name": "c15_tsan", "src": "checks/c15_threads.cpp", "libs": ["-lpthread"],
+                  "base_flags": ["-std=c++17", "-O1", "-g1", "-fno-access-control", "-fsanitize=thread", "-DNDEBUG", "-DVF_FREE_RUN",
+                                 "-Wno-deprecated-declarations"]})
+    for sc in ("tree", "tree_link", "expansion", "matrix", "mixed"):
+        q.append({"unit": "c15_threads", "args": ["--scenario", sc, "--threads", "2", "--bound", "1", "--budget", "120"]})
+        t.append({"unit": "c15_threads", "args": ["--scenario", sc, "--threads", "2", "--bound", "2", "--budget", "1500"], "timeout": 2400})
+        q.append({"unit": "c15_tsan", "args": ["--scenario", sc, "--threads", "3", "--reps", "20"], "cores": 3})
+        t.append({"unit": "c15_tsan", "args": ["--scenario", sc, "--threads", "3", "--reps", "300"], "cores": 3})
+    t.append({"unit": "c15_threads", "args": ["--scenario", "mixed", "--threads", "3", "--bound", "1", "--budget", "1500"], "timeout": 2400})
     CHECKS["C15"] = {
         "units": units,
         "level": "model_checking",
@@ -22,7 +33,7 @@ def register(CHECKS, H):
                        "models, then each is driven through every one-step continuation while the other must stay equal to its model, and "
                        "each is destroyed first in turn. Serialisation: announced size, round trip (binary and text), and deserialize on a "
                        "tight heap buffer of every length 0..size+16 must throw without touching memory outside the buffer (ASan)"),
-        "level_note": "memory safety is decided by ASan/UBSan on the executed paths only; thread interleavings (E3) and the matrix classes are covered by separate units when registered; trusted: reference complex",
+        "level_note": "memory safety is decided by ASan/UBSan on the executed paths only; thread part: every interleaving of 2 threads (each owning a Simplex_tree / Persistent_cohomology / Matrix) at allocation and deallocation points with <= 1 preemption (thorough: <= 2; 3 threads <= 1), each schedule in a forked child under a watchdog and compared with the sequential result; races at non-allocating instructions are below that granularity and are only sampled by a free-running ThreadSanitizer build of the same bodies; trusted: reference complex",
         "rule": "case = one source state (model x variant); ev.transitions = full observations and length probes executed; non-trivial = model with an edge",
         "bounds": {"quick": "3 vertices x values {0,1}: 148 models x 3 variants, 8 option sets, every length 0..size+16",
                    "thorough": "3 vertices x values {0,1,2} for copies; 4 vertices x values {0,1} for serialisation"},
